@@ -14,8 +14,9 @@ Items == {[k |-> "File", name |-> n, content |-> c] : n \in Names, c \in Content
     \cup {[k |-> "UPatch", pt |-> p, text |-> t] : p \in Points, t \in Texts}
     \cup {[k |-> "NPatch", name |-> n, pt |-> p, text |-> t] : n \in Names, p \in Points, t \in Texts}
 
-Timing == { [dur |-> "fast", limit |-> 300], [dur |-> "fast", limit |-> 0],
-            [dur |-> "slow", limit |-> 0],   [dur |-> "slow", limit |-> 300] }
+Timing == { [dur |-> "fast", limit |-> 20000], [dur |-> "fast", limit |-> 0],
+            [dur |-> "slow", limit |-> 0],     [dur |-> "slow", limit |-> 300],
+            [dur |-> "slow", limit |-> 20000] }
 Warns == { <<>>, <<"w1">>, <<"w1", "w2">> }
 Rerrs == { "", "boom" }
 
@@ -30,7 +31,7 @@ CasesOf(b) ==
     {Mk(b, tm, its, w, e, code, wr) : tm \in Timing, its \in SeqsUpTo(Items, 1), w \in {<<>>, <<"w1">>},
                                       e \in Rerrs, code \in {1, 3}, wr \in BOOLEAN}
   ELSE IF b = "Hang" THEN
-    {Mk(b, tm, its, <<>>, "", 0, FALSE) : tm \in {t \in Timing : t.limit > 0 /\ t.dur = "fast"},
+    {Mk(b, tm, its, <<>>, "", 0, FALSE) : tm \in {[dur |-> "fast", limit |-> 300]},
                                           its \in SeqsUpTo(Items, 1)}
   ELSE
     {Mk(b, tm, its, w, e, 0, b = "Partial") : tm \in Timing, its \in SeqsUpTo(Items, 1),
@@ -53,7 +54,7 @@ MSpec == MInit /\ [][MNext]_mvars
 
 Running == phase = "run"
 
-MTypeOK   == Running => TypeOK /\ Terminating(cs)
+MTypeOK   == Running => TypeOK /\ Terminating(cs) /\ WellTimed(cs)
 MHonoured == Running => Honoured
 MNoOrphan == Running => NoOrphan
 MFileManager == Running => UniqueNames /\ NoDuplicateSubmission /\ LastIsAFile
